@@ -105,6 +105,19 @@ func (e *Engine) harnessPrim(fn *ssa.Function, name string, args []Value) (Value
 		e.assertPC(tAnd(tCmp("<=", lo, t), tCmp("<=", t, hi)))
 		e.recordPrim("i", t)
 		return t, true
+	case "vpBoundarySize":
+		// a size next to one of the integer constants of the named code (current
+		// SSA): c-1, c, c+1 for each constant 2 < c <= max, and max itself - the
+		// sizes at which a threshold in the code flips
+		cands := e.sh.sizeCandidates(e.mustStr(args[0], "vpBoundarySize"), int(e.concretize(args[1].(*Term), 0, 4096)))
+		t := e.fresh("i", false)
+		c := tFalse
+		for _, v := range cands {
+			c = tOr(c, tEq(t, mkInt(int64(v))))
+		}
+		e.assertPC(c)
+		e.recordPrim("i", t)
+		return mkInt(int64(cands[e.concretizeAmong(t, cands)])), true
 	case "vpBool":
 		t := e.fresh("b", true)
 		e.recordPrim("b", t)
